@@ -15,6 +15,9 @@ class Machinery(Exception):
     """Failure of the verification machinery itself (exit 2, never a VIOLATION)."""
 
 
+SPEC_DIR = os.path.join(VERIF, "spec")
+
+
 class Ctx:
     def __init__(self, pid, tier, seed):
         self.pid, self.tier, self.seed = pid, tier, seed
@@ -26,6 +29,8 @@ class Ctx:
         self.tlc_runs = []
         self.cases = []          # all executed cases (dicts with cid)
         self.records = []        # all validated records
+        self.passes = {}         # order passes: key -> (driver, ordered cases, nproc)
+        self.pass_ranges = []    # (first cid, last cid + 1, key of the first pass)
         self.rejected = []       # (record, clause, trace_module, driver)
         self.drift = []
         self.bounds = {}
@@ -138,15 +143,101 @@ class Ctx:
         self.log("gen %s/%s: %d cases, %.1fs" % (module, r.cfg, len(cases), r.wall_s))
         return cases
 
+    # ---- (b') unbounded-integer obligations discharged by Apalache (symbolic; complements TLC's bounded enumeration) ----
+    def apalache(self, module, obligations, timeout=300):
+        """obligations: list of (name, [args], expect) with expect in ("NoError", "Error").  A tool that cannot run is recorded
+        as skipped (it never decides a verdict about the code); an unexpected outcome is a machinery failure (the model is wrong)."""
+        import shutil as _sh
+        res = []
+        d = os.path.join(SPEC_DIR, "apalache")
+        if _sh.which("apalache-mc") is None:
+            self.notes.append("apalache-mc not on PATH: obligations %s skipped" % [o[0] for o in obligations])
+            return res
+        for name, args, expect in obligations:
+            out = os.path.join(self.work, self.tag("apa"))
+            t0 = time.time()
+            try:
+                p = subprocess.run(["apalache-mc", "check"] + args + ["--out-dir=" + out, module + ".tla"], cwd=d, stdout=subprocess.PIPE,
+                                   stderr=subprocess.STDOUT, text=True, timeout=timeout)
+                txt = p.stdout
+            except subprocess.TimeoutExpired:
+                self.notes.append("apalache obligation %s timed out after %ds (skipped)" % (name, timeout))
+                continue
+            finally:
+                shutil.rmtree(out, ignore_errors=True)
+            got = "NoError" if "The outcome is: NoError" in txt else "Error" if "The outcome is: Error" in txt else "unknown"
+            res.append({"role": "apalache", "obligation": name, "module": module, "args": args, "outcome": got, "expected": expect, "wall_s": round(time.time() - t0, 1)})
+            self.tlc_runs.append(res[-1])
+            self.log("apalache %s/%s: %s (%.1fs)" % (module, name, got, time.time() - t0))
+            if got == "unknown":
+                self.notes.append("apalache obligation %s gave no verdict (skipped): %s" % (name, txt[-300:].replace("\n", " ")))
+            elif got != expect:
+                raise Machinery("apalache obligation %s on %s: outcome %s, expected %s\n%s" % (name, module, got, expect, txt[-1500:]))
+        return res
+
     # ---- (c) execution against the real code ----------------------------------------------
-    def execute(self, driver, cases, nproc=None, timeout=3000, fresh_label="exec"):
-        """Run cases through harness.worker in parallel subprocesses. Returns records (with cid)."""
+    def execute(self, driver, cases, nproc=None, timeout=3000, fresh_label="exec", orders=1):
+        """Run cases through harness.worker in parallel subprocesses. Returns records (with cid).
+
+        orders=k > 1: the same cases are executed again, k - 1 times, in fresh workers, in a seeded shuffled order and with a
+        different split over workers (different neighbours, different predecessors): a library that remembers things between calls
+        answers some case differently.  Only the cases whose recorded lines differ from the first pass are handed on (identical
+        lines get the identical verdict); they are tagged with the pass so that a rejection can be reproduced in that order."""
         base = len(self.cases)
         for i, c in enumerate(cases):
             c["cid"] = base + i
             c["_drv"] = driver
         self.cases.extend(cases)
-        return self._execute_raw(driver, cases, nproc, timeout, fresh_label)
+        key1 = "%s#%d#1" % (driver, base)
+        self.passes[key1] = (driver, list(cases), nproc)
+        self.pass_ranges.append((base, base + len(cases), key1))
+        recs = self._execute_raw(driver, cases, nproc, timeout, fresh_label)
+        if orders > 1 and len(cases) > 1:
+            def strip(r):
+                return json.dumps({k: v for k, v in r.items() if k != "_x"}, sort_keys=True)
+            first = {}
+            for r in recs:
+                first.setdefault(r["cid"], []).append(strip(r))
+            extra = []
+            for k in range(2, orders + 1):
+                perm = list(cases)
+                random.Random(self.seed * 7919 + k).shuffle(perm)
+                np2 = max(1, (nproc or NPROC) // 2 + k)
+                recs2 = self._execute_raw(driver, perm, np2, timeout, "%s_o%d" % (fresh_label, k))
+                key = "%s#%d#%d" % (driver, base, k)
+                self.passes[key] = (driver, perm, np2)
+                again = {}
+                for r in recs2:
+                    again.setdefault(r["cid"], []).append(r)
+                ndiff = 0
+                for cid, rs in again.items():
+                    if [strip(r) for r in rs] != first.get(cid):
+                        ndiff += 1
+                        for r in rs:
+                            r.setdefault("_x", {})["pass"] = key
+                        extra.extend(rs)
+                self.coverage_extra["order_passes"] = self.coverage_extra.get("order_passes", 0) + 1
+                self.coverage_extra["cases_answered_differently_in_another_order"] = self.coverage_extra.get("cases_answered_differently_in_another_order", 0) + ndiff
+                self.log("order pass %d: %d of %d cases recorded differently" % (k, ndiff, len(cases)))
+            recs = recs + extra
+            recs.sort(key=lambda r: r["cid"])
+        return recs
+
+    def pass_of_cid(self, cid):
+        for lo, hi, key in self.pass_ranges:
+            if lo <= cid < hi:
+                return key
+        return None
+
+    def sequence_before(self, key, cid):
+        """cids executed by the same worker up to and including cid, in order (what that interpreter had done)."""
+        drv, perm, np_ = self.passes[key]
+        np_ = max(1, min(np_ or NPROC, (len(perm) + 49) // 50 or 1))
+        for j in range(np_):
+            chunk = [c["cid"] for c in perm[j::np_]]
+            if cid in chunk:
+                return chunk[:chunk.index(cid) + 1]
+        return [cid]
 
     def _execute_raw(self, driver, cases, nproc=None, timeout=3000, label="exec"):
         nproc = max(1, min(nproc or NPROC, (len(cases) + 49) // 50 or 1))
@@ -424,11 +515,30 @@ def finish(ctx, level_note_assumptions=()):
         for (driver, module, cfg, envs), rejs in by_group.items():
             cids = sorted({r["record"]["cid"] for r in rejs})[:200]
             cases = [c for c in ctx.cases if c["cid"] in set(cids)]
-            if driver is None or not cases:
+            if driver is None or not cases or getattr(ctx, "is_replay", False):     # a replay IS the re-execution
                 violations.extend(rejs)
                 continue
+            venv = json.loads(envs) if envs != "null" else None
             recs = ctx._execute_raw(driver, cases, nproc=1, label="reexec")
-            bad2 = ctx._validate_raw(module, recs, cfg, env=json.loads(envs) if envs != "null" else None)
+            bad2 = ctx._validate_raw(module, recs, cfg, env=venv)
+            reproduced = {rec["cid"] for rec, _ in bad2}
+            # what does not reproduce on its own may depend on what the interpreter did before: re-run the pass it was seen in,
+            # in the same order and the same split over workers (deterministic), and keep the cases in question
+            left = [r for r in rejs if r["record"]["cid"] not in reproduced]
+            by_pass = {}
+            for r in left:
+                pk = r["record"].get("_x", {}).get("pass") or ctx.pass_of_cid(r["record"]["cid"])
+                if pk in ctx.passes:
+                    by_pass.setdefault(pk, set()).add(r["record"]["cid"])
+            for pk, want in sorted(by_pass.items()):
+                pdrv, perm, np2 = ctx.passes[pk]
+                want = set(sorted(want)[:200])
+                recs3 = [r for r in ctx._execute_raw(pdrv, perm, np2, label="reexec_order") if r["cid"] in want]
+                bad3 = ctx._validate_raw(module, recs3, cfg, env=venv)
+                for rec, clause in bad3:
+                    rec.setdefault("_x", {})["pass"] = pk
+                    rec["_x"]["order_dependent"] = True
+                bad2 = bad2 + bad3
             still = []
             for rec, clause in bad2:
                 rej2 = {"record": rec, "clause": clause, "module": module, "driver": driver, "cfg": cfg}
@@ -457,6 +567,18 @@ def finish(ctx, level_note_assumptions=()):
                "rejected": [{"clause": v["clause"], "module": v["module"], "driver": v["driver"], "cfg": v["cfg"],
                              "record": v["record"]} for v in violations[:50]],
                "n_rejected_total": len(violations)}
+        # a violation that shows only after what the interpreter did before: the replay carries that whole sequence of cases
+        seqs = []
+        bycid = {c["cid"]: c for c in ctx.cases}
+        for v in violations:
+            x = v["record"].get("_x", {})
+            if x.get("order_dependent") and len(seqs) < 3:
+                order = ctx.sequence_before(x["pass"], v["record"]["cid"])
+                seqs.append({"driver": v["driver"], "module": v["module"], "cfg": v["cfg"], "for_cid": v["record"]["cid"],
+                             "cases": [bycid[c] for c in order if c in bycid]})
+        if seqs:
+            doc["sequences"] = seqs
+            doc["note"] = "order-dependent: the rejected lines reproduce when the cases of a sequence are executed in that order in one interpreter"
         json.dump(doc, open(replay_path, "w"), indent=1)
     for fid, (f, n) in sorted(matched.items()):
         print("%s: %s=%s %s [%s, %d rejected lines]" % ("KNOWN-DEVIATION" if ext else "KNOWN-FINDING", "extension" if ext else "property", ctx.pid, f["summary"], fid, n))
@@ -542,6 +664,7 @@ def main(argv=None):
         mod = importlib.import_module("harness.props." + pid.lower())
         if a.replay:
             doc = json.load(open(a.replay))
+            ctx.is_replay = True
             groups = {}
             for rj in doc["rejected"]:
                 groups.setdefault((rj["driver"], rj["module"], rj["cfg"]), set()).add(rj["record"]["cid"])
@@ -550,6 +673,11 @@ def main(argv=None):
                 ctx.cases.extend(cases)
                 recs = ctx._execute_raw(driver, cases, nproc=1, label="replay")
                 ctx.validate(module, recs, driver=driver, cfg=cfg)
+            for sq in doc.get("sequences", []):
+                cases = [dict(c) for c in sq["cases"]]
+                ctx.cases.extend(cases)
+                recs = ctx._execute_raw(sq["driver"], cases, nproc=1, label="replay_seq")
+                ctx.validate(sq["module"], recs, driver=sq["driver"], cfg=sq["cfg"])
             ctx.rule = "replay of " + a.replay
         else:
             mod.run(ctx)
